@@ -15,6 +15,7 @@ Driver of engine `p2p` (C20).  Op lines (see go/cmd/p2p/main.go for the harness 
   dispbad <nomsg|nohdr|nodata>                  -> empty
   tick <ms>                                     -> ok
   stress …                                      -> ok   (implementation only; not compared)
+  dmut …                                        -> ok   (implementation only; not compared)
 
 `m` is the marshalled payload (`nil` = nil message, `-` = zero bytes), `z` what snappy made of it
 (`-` if none): the model's codec is the table {m ↦ z}.
@@ -203,6 +204,7 @@ def step (s : St) (line : String) : St × String :=
     | some ms => ({ s with st := tick s.st ms }, "ok")
     | none => (s, "bad-op")
   | "stress" :: _ => (s, "ok")
+  | "dmut" :: _ => (s, "ok")
   | _ => (s, "bad-op")
 
 def run : IO Unit := loop step St.init
